@@ -11,6 +11,7 @@ from mcx import core  # noqa: E402
 core.bind_repo()
 props = [json.loads(l) for l in open(os.path.join(HERE, 'properties.jsonl'))]
 have = {os.path.basename(p)[:-3].upper() for p in glob.glob(os.path.join(HERE, 'checks', 'c[0-9]*.py'))}
+have &= {l.strip() for l in open(os.path.join(HERE, 'tools', 'claimed.txt')) if l.strip()}
 NA_REASONS = {}
 na_path = os.path.join(HERE, 'tools', 'not_applicable.json')
 if os.path.exists(na_path):
